@@ -16,8 +16,8 @@ func init() {
 	Registry["C02"] = c02
 	Metas["C02"] = Meta{Level: "other", NeedCG: true,
 		Technique: "static analysis: struct-field vs hash-map coverage tables, edge-dominance of every header-commitment check on all success paths of the block verifier, validate-before-vote/lock/finalize dominance, VerifyCommit guard list",
-		Explain: "Static analysis of block validation. Decided: (R1) Header.Hash covers every Header field except the documented Extra, each under a distinct key; (R2) on every success path of the installed block verifier (pbft ValidateBlock -> ValidateBasic, ValidateCommit, HasAddress, VerifyCommit) each header commitment {ChainID, Height, NumTxs, LastBlockID, LastCommitHash, DataHash, ValidatorsHash, AppHash, ReceiptsHash, ProposerAddress} has been compared with what it commits to (Time and Extra exempt, with reason); (R3) ValidateBlock dominates the proposal prevote, the lock and SaveBlock/ApplyBlock, and ExecBlock starts with validation; (R4) VerifyCommit's guard list; (R5) the LastCommit is verified against LastValidators with the state's chain id, block id and height-1 on every success path for height>1; MakeCommit gating. (R6/R7) every +2/3 threshold in the node is the strict 3x>2T predicate and every tally counts a validator once (shared with C01/C15). NOT decided: that the compared hashes are collision-free, signature arithmetic, behaviour over schedules.",
-		Assume: []string{"merkle/SimpleHash and wire.BinaryHash are collision-resistant encodings of their inputs", "go-crypto VerifyBytes is sound"},
+		Explain:   "Static analysis of block validation. Decided: (R1) Header.Hash covers every Header field except the documented Extra, each under a distinct key; (R2) on every success path of the installed block verifier (pbft ValidateBlock -> ValidateBasic, ValidateCommit, HasAddress, VerifyCommit) each header commitment {ChainID, Height, NumTxs, LastBlockID, LastCommitHash, DataHash, ValidatorsHash, AppHash, ReceiptsHash, ProposerAddress} has been compared with what it commits to (Time and Extra exempt, with reason); (R3) ValidateBlock dominates the proposal prevote, the lock and SaveBlock/ApplyBlock, and ExecBlock starts with validation; (R4) VerifyCommit's guard list; (R5) the LastCommit is verified against LastValidators with the state's chain id, block id and height-1 on every success path for height>1; MakeCommit gating. (R6/R7) every +2/3 threshold in the node is the strict 3x>2T predicate and every tally counts a validator once (shared with C01/C15). NOT decided: that the compared hashes are collision-free, signature arithmetic, behaviour over schedules.",
+		Assume:    []string{"merkle/SimpleHash and wire.BinaryHash are collision-resistant encodings of their inputs", "go-crypto VerifyBytes is sound"},
 	}
 }
 
@@ -130,7 +130,10 @@ func c02R1(c *Ctx) {
 
 func c02R2(c *Ctx) {
 	rule := c.R.Rule("R2", "every header commitment is validated: all success returns of Block.ValidateBasic / ValidateCommit / pbft ValidateBlock are reached only through the passing edge of the comparison of each commitment with what it commits to", 14)
-	type want struct{ fn string; w []WantGuard }
+	type want struct {
+		fn string
+		w  []WantGuard
+	}
 	// ValidateBasic
 	if f := c.Anchor(rule, "gemmill/types.(*Block).ValidateBasic"); f != nil {
 		for _, r := range nilErrReturns(f) {
